@@ -138,7 +138,7 @@ theorem eval_unary (F : FloatOps) (op : UnaryToken) (a : Expr) : eval F (.unary 
   rfl
 theorem eval_binary (F : FloatOps) (op : BinaryToken) (l r : Expr) : eval F (.binary op l r) =
     (match op.toOp with
-     | none => .outside
+     | none => .illTyped
      | some _ =>
        match eval F l, eval F r with
        | .val a, .val b => binary F op a b
